@@ -109,4 +109,23 @@ Lemma src_mat_mul a b : s_mat_mul a b = mat_mul a b.
 Proof. reflexivity. Qed.
 Lemma src_mat_vec_mul m (v : list (T A)) : s_mat_vec_mul m v = multiply m v.
 Proof. reflexivity. Qed.
+(* all of them at once: what a Props file pins as  model_is_source_<property>  *)
+Definition model_is_source_MatArith : Prop :=
+  (forall m, s_mneg m = mneg m) /\
+  (forall a b, s_madd a b = madd a b) /\
+  (forall a b, s_msub a b = msub a b) /\
+  (forall m x, s_mscale m x = mscale m x) /\
+  (forall x m, s_mscale_l x m = mscale_l x m) /\
+  (forall m x, s_mdiv m x = mdiv m x) /\
+  (forall a b, s_madd_assign a b = madd_assign a b) /\
+  (forall a b, s_msub_assign a b = msub_assign a b) /\
+  (forall m x, s_mmul_assign_scalar m x = mmul_assign_scalar m x) /\
+  (forall m x, s_mdiv_assign_scalar m x = mdiv_assign_scalar m x) /\
+  (forall m x, s_madd_assign_scalar m x = madd_assign_scalar m x) /\
+  (forall m x, s_msub_assign_scalar m x = msub_assign_scalar m x) /\
+  (forall a b, s_mat_mul a b = mat_mul a b) /\
+  (forall m (v : list (T A)), s_mat_vec_mul m v = multiply m v).
+Lemma model_is_source_MatArith_lemma : model_is_source_MatArith.
+Proof. exact (conj src_mneg (conj src_madd (conj src_msub (conj src_mscale (conj src_mscale_l (conj src_mdiv (conj src_madd_assign (conj src_msub_assign (conj src_mmul_assign_scalar (conj src_mdiv_assign_scalar (conj src_madd_assign_scalar (conj src_msub_assign_scalar (conj src_mat_mul src_mat_vec_mul))))))))))))). Qed.
+
 End SrcEqMatArith.
